@@ -1,5 +1,6 @@
 #!/bin/bash
 # confirm_seed.sh <seed dir with patch.diff + demo/> <package dir for the demo, relative to repo> <go test args...>
+# (DEMO_TAGS=verif runs the demo - only the demo - with that build tag.)
 # Confirms in a scratch worktree: patch applies, builds, existing suite passes with it, demo fails
 # with it and passes without it.  Prints a verdict; leaves nothing behind.
 D="$1"; PKG="$2"; shift 2
@@ -9,10 +10,10 @@ git -C /repo worktree add -q --detach "$W/repo" HEAD || exit 2
 trap 'git -C /repo worktree remove --force "$W/repo" 2>/dev/null; rm -rf "$W"' EXIT
 cd "$W/repo"
 mkdir -p "$PKG"; cp "$D"/demo/*_test.go "$PKG"/ 2>/dev/null
-echo "--- demo on unchanged tree"; go test -vet=off -count=1 "$@" 2>&1 | tail -3; base=${PIPESTATUS[0]}
+echo "--- demo on unchanged tree"; go test ${DEMO_TAGS:+-tags $DEMO_TAGS} -vet=off -count=1 "$@" 2>&1 | tail -3; base=${PIPESTATUS[0]}
 git apply "$D/patch.diff" || { echo "VERDICT: patch does not apply"; exit 1; }
 go build ./... && go vet ./... >/dev/null 2>&1 || { echo "VERDICT: does not build/vet"; exit 1; }
-echo "--- demo with change"; go test -vet=off -count=1 "$@" 2>&1 | tail -4; mut=${PIPESTATUS[0]}
+echo "--- demo with change"; go test ${DEMO_TAGS:+-tags $DEMO_TAGS} -vet=off -count=1 "$@" 2>&1 | tail -4; mut=${PIPESTATUS[0]}
 rm -f "$PKG"/zz_*_test.go; rmdir "$PKG" 2>/dev/null
 echo "--- existing suite with change"; go test -vet=off -count=1 ./... 2>&1 | grep -v "no test files" | grep -v "^ok" | head -5; suite=${PIPESTATUS[0]}
 echo "VERDICT: demo_unchanged_exit=$base demo_changed_exit=$mut suite_exit=$suite"
